@@ -4,3 +4,5 @@ import AITB.Model.Factored
 import AITB.Props.C14
 import AITB.Model.Hidden
 import AITB.Props.C16
+import AITB.Model.Cursor
+import AITB.Props.C10
